@@ -582,6 +582,8 @@ def b_int(ip, st, x=0, base=None):
         return mk_int(V._z(x))
     if isinstance(x, SInt):
         return x
+    if isinstance(x, ModelObj) and hasattr(x, "py_int"):
+        return x.py_int(ip, st)  # int(<modelled str>): the model decides (value / ValueError)
     if x is None:
         _raise(TypeError, "int() argument must be a string, a bytes-like object or a real number, not 'NoneType'")
     if isinstance(x, Sym):
